@@ -66,6 +66,10 @@ def one(item, all_checks):
         if os.path.exists(demo):
             rc, out = sh([PY, demo], cwd=wt, timeout=900)
             res["demo_patched"] = "BROKEN" if "BROKEN" in out else ("OK" if "OK" in out else (out.strip().splitlines() or ["?"])[-1][:40])
+        equiv = os.path.join(d, "equiv.py")
+        if os.path.exists(equiv):
+            rc, out = sh([PY, equiv, REPO], cwd=wt, timeout=1800)
+            res["equiv"] = "DIFFERENT" if "DIFFERENT" in out else ("SAME" if "SAME" in out else (out.strip().splitlines() or ["?"])[-1][:60])
         rc, obl, out = run_check(prop, wt)
         res["own_rc"] = rc
         res["own"] = obl
@@ -91,6 +95,8 @@ def main():
     ap.add_argument("--all-checks", action="store_true")
     ap.add_argument("--json")
     ap.add_argument("--dir", default=os.path.join(ROOT, "seeded"))
+    ap.add_argument("--expect", default="violation", choices=["violation", "silent"],
+                    help="violation: breaking changes (seeded/); silent: behaviour-preserving refactorings (refactors/)")
     a = ap.parse_args()
     items = []
     want = a.props.split(",") if a.props else None
@@ -105,17 +111,23 @@ def main():
     with ThreadPoolExecutor(max_workers=8) as ex:
         results = list(ex.map(lambda it: one(it, a.all_checks), items))
     missed = 0
+    want_rc = 0 if a.expect == "silent" else 1
     for r in results:
         if "error" in r:
             print("%s/%s ERROR %s" % (r["prop"], r["name"], r["error"]))
             continue
         own = {0: "silent", 1: "VIOLATION", 2: "UNDECIDED"}.get(r["own_rc"], "rc=%s" % r["own_rc"])
-        if r["own_rc"] != 1:
+        if r["own_rc"] != want_rc or (a.expect == "silent" and r.get("others")):
             missed += 1
+        if "equiv" in r:
+            own = "equiv=%s %s" % (r["equiv"], own)
         oth = ",".join("%s:%s%s" % (p, {1: "V", 2: "U"}.get(v["rc"], "?"), v["obl"]) for p, v in r.get("others", {}).items()) or "-"
         print("%s/%-34s demo=%s/%s own=%s%s others=%s" % (r["prop"], r["name"], r.get("demo_clean", "-"), r.get("demo_patched", "-"), own,
                                                           r["own"], oth))
-    print("changes=%d caught=%d not-caught=%d" % (len(results), len(results) - missed, missed))
+    if a.expect == "silent":
+        print("refactorings=%d silent=%d alarmed-or-undecided=%d" % (len(results), len(results) - missed, missed))
+    else:
+        print("changes=%d caught=%d not-caught=%d" % (len(results), len(results) - missed, missed))
     if a.json:
         json.dump(results, open(a.json, "w"), indent=1)
     return 0
